@@ -6,7 +6,7 @@ driver for the server connection-table model (engine `server`, C26)
   reset <orig|fixed|fixed2> <tls 0|1> <eha>        (fixed = with D14, fixed2 = with D14 and D14b)
   arrive <peer> <sockname> <reported> <hs>     hs = word over d (done) w (want) f (fail), `-` = empty
   accepts | axes | cxes | connects | all | closeall
-  shutdown <ca> | close <ca> | remove <ca> <0|1>
+  shutdown <ca> | shutsend <ca> | shutrecv <ca> | close <ca> | remove <ca> <0|1>
   region D14b <tls> <peer> <peer> …             → 1 | 0
 reply (every op): `ok|ERR <Exc> ix=<ca:sock:hasCs:connected,…> cx=<…> ax=<sock:ca,…> pend=<n> socks=<shutdowns:closed,…>`
 -/
@@ -83,6 +83,8 @@ def step (d : Option D) (line : String) : Option D × String :=
   | ["all"] => apply d .serviceAll
   | ["closeall"] => apply d .closeAllIx
   | ["shutdown", ca] => match ca.toNat? with | some ca => apply d (.shutdownIx ca) | none => (d, "bad-op")
+  | ["shutsend", ca] => match ca.toNat? with | some ca => apply d (.shutdownSendIx ca) | none => (d, "bad-op")
+  | ["shutrecv", ca] => match ca.toNat? with | some ca => apply d (.shutdownReceiveIx ca) | none => (d, "bad-op")
   | ["close", ca] => match ca.toNat? with | some ca => apply d (.closeIx ca) | none => (d, "bad-op")
   | ["remove", ca, sc] =>
     match ca.toNat?, bool? sc with
